@@ -66,6 +66,8 @@ def render_arg(a, dialect, comma=False):
 
 def render(m, dialect='new', queue=None, comma=False):
     """m: message spec; dialect 'old'|'new'."""
+    if dialect == 'gdb-shaped':
+        dialect = 'new'
     sep = '@' if dialect == 'old' else '#'
     out = timestamp(m['t_us'], dialect, comma)
     if dialect == 'new' and queue is not None:
